@@ -162,6 +162,13 @@ def analyse_run(ctx, sc, cfg, res, label):
         branching = [(None, [x for x, _ in rmodel[0]])] + [((li, x), kids_) for li in range(len(rmodel) - 1) for x, kids_ in rmodel[li]]
         for par, kids_ in branching:
             if len(kids_) < 2:
+                # nothing is decided at a single-child parent: no gene is used there, whatever the table lists
+                key_ = 'None' if par is None else f'{rlevels[par[0]]}/{gt.name(par[1])}'
+                # (the root's list is always demanded by the cache builder and always reported: exempt)
+                if par is not None and mg.get(key_):
+                    problems.append(('property', f'parent {key_} has a single child (no vote, no gene used) but the embedded '
+                                     f'marker table lists {mg.get(key_)}', 'c15-marker-table-lists-unused-genes'))
+                ctx.dist('run_parent_markers', 'single-child')
                 continue
             key_ = 'None' if par is None else f'{rlevels[par[0]]}/{gt.name(par[1])}'
             own = tb(key_) or set()
@@ -421,7 +428,7 @@ def gen_config_variation(rng, sc):
     if r < 0.25 and len(lv) > 1:
         drop = rng.choice(lv[:-1])
     elif r < 0.35:
-        drop = 'nonexistent_level'
+        drop = absent_level_name(rng, lv)
     elif r < 0.5:
         flatten = True
     elif r < 0.58 and len(lv) > 1:
@@ -459,6 +466,13 @@ SPECIAL = [
     ([[2], [3, 2]], 12, dict(flatten=False, drop_level=None, _collide=True)),
     ([[2], [2, 2], [2, 3, 2, 2]], 14, dict(flatten=False, drop_level=None, _collide=True)),
 ]
+
+
+def absent_level_name(rng, levels):
+    """A drop_level that is NOT a level of the taxonomy: unrelated, a proper prefix of a level name, a level name
+    extended, the root key, a 'level/node' key."""
+    cands = ['nonexistent_level', levels[0][:1], levels[-1][:1], levels[0] + 'x', 'None', levels[0] + '/n000']
+    return rng.choice([c for c in cands if c and c not in levels])
 
 
 def run_batch(ctx, n_runs, prefixes, label, max_levels=4, max_leaves=8, raise_is_violation=False):
